@@ -403,9 +403,6 @@ def rtLine (toks : List String) (impl : List String) : String := Id.run do
       | _ => pure ()
     let panicked := (s.pools.map (·.panics)).foldl (· + ·) 0 > panicsBefore
     outs := outs.push (if s.fatal then "X" else if panicked then "panic" else match fireOut with | some f => f | none => d)
-  -- epochs whose queued finalisation the MODEL says is thrown away by ExtractAllMarkedFinalize
-  let lost := (s.pools.map (fun p => p.tr.filterMap fun e => match e with
-    | .dropped v _ => some (toString v.key) | _ => none)).flatten
   -- a history that dies in runtime.SetFinalizer or uses the runtime after Close is not judged further
   let usedAfterClose := impl.contains "panic"
   let verdict :=
@@ -415,7 +412,7 @@ def rtLine (toks : List String) (impl : List String) : String := Id.run do
       if reachable.isEmpty then v
       else (if v == "ok" then "bad" else v) ++ " " ++ " ".intercalate reachable.toList
   return " ".intercalate outs.toList ++ " ; ds=" ++ (if s.fatal then "1" else "0") ++ " ; A=" ++ verdict
-    ++ " ; D1=" ++ ",".intercalate lost
+
 
 def handle (line : String) : String :=
   let toks := (line.splitOn " ").filter (fun s => !s.isEmpty)
